@@ -64,7 +64,10 @@ fn name_class(name: &str) -> String {
 
 /// What else is on the line: nothing, an argument in front of the completed word (its end must not confuse the word-start
 /// computation), or one more character of the name typed by the user before TAB (escaped as a user would).
-pub const VARIANTS: [&str; 6] = ["plain", "after-argument-ending-in-escaped-backslash", "after-single-quoted-argument", "after-double-quoted-argument", "after-argument-with-escaped-blank", "one-more-character-typed"];
+pub const VARIANTS: [&str; 7] = ["plain", "after-argument-ending-in-escaped-backslash", "after-single-quoted-argument", "after-double-quoted-argument", "after-argument-with-escaped-blank", "one-more-character-typed",
+    // the entry is the only one in its directory and its name has no letter prefix: the typed word is the first character
+    // of the name (a one-character prefix that is a special character, escaped as a user would)
+    "no-letter-prefix-first-character-typed"];
 const BEFORE: [(&str, &str); 5] = [("", ""), ("x\\\\ ", "x\\"), ("'q' ", "q"), ("\"d q\" ", "d q"), ("a\\ b ", "a b")];
 
 /// ok / deviation kind + what was observed
@@ -73,7 +76,11 @@ pub fn verdict(ctx: usize, name: &str, workdir: &str, loc: usize) -> (String, Va
 }
 
 pub fn verdict_variant(ctx: usize, name: &str, workdir: &str, loc: usize, variant: usize) -> (String, Value) {
-    let full = format!("{}{}", PREFIX, name);
+    let bare = variant >= 6;
+    if bare && (name.is_empty() || name == "." || name == "..") {
+        return ("skipped".into(), Value::Null);
+    }
+    let full = if bare { name.to_string() } else { format!("{}{}", PREFIX, name) };
     // what the program must receive: the entry's path as typed, with `~` / the variable replaced by the directory
     let (dir, expect_prefix) = match LOCATIONS[loc].0 {
         "cwd" => (workdir.to_string(), String::new()),
@@ -97,6 +104,9 @@ pub fn verdict_variant(ctx: usize, name: &str, workdir: &str, loc: usize, varian
         return ("machinery".into(), json!(format!("cannot create {:?}", path)));
     }
     let mut typed = typed_line(ctx, loc);
+    if bare {
+        typed = typed[..typed.len() - PREFIX.len()].to_string();
+    }
     let mut prev_arg: Option<&str> = None;
     if (1..=4).contains(&variant) {
         // `cmd ARG word`: insert the argument after the command name
@@ -109,7 +119,7 @@ pub fn verdict_variant(ctx: usize, name: &str, workdir: &str, loc: usize, varian
             return ("skipped".into(), Value::Null);
         }
     }
-    if variant == 5 {
+    if variant == 5 || variant == 6 {
         // the user types the first character of the name too
         let c = match name.chars().next() {
             Some(c) => c,
@@ -144,7 +154,7 @@ pub fn verdict_variant(ctx: usize, name: &str, workdir: &str, loc: usize, varian
         }
         // a directory completed inside an open quote keeps the quote open (the user may go on with the next path
         // component): the user closes it with the quote character the completed word now starts with
-        if for_dir && (CONTEXTS[ctx].starts_with("cd-") || variant == 5) && comps.len() == 1 && !vh::parse_line(&line).is_complete {
+        if for_dir && (CONTEXTS[ctx].starts_with("cd-") || variant >= 5) && comps.len() == 1 && !vh::parse_line(&line).is_complete {
             if let Some(q) = comps[0].0.chars().next().filter(|c| *c == '\'' || *c == '"') {
                 line.push(q);
             }
@@ -373,9 +383,12 @@ pub fn run(ctx: &Ctx) -> Value {
                 (0..CONTEXTS.len()).flat_map(move |ctx| {
                     let name = name.clone();
                     let name2 = name.clone();
+                    let name3 = name.clone();
                     // every location with nothing else on the line; in the working directory also the line variants
                     (0..nloc).map(move |loc| Case { ctx, name: name.clone(), loc, variant: 0 })
                         .chain((1..(if nloc > 1 { VARIANTS.len() } else { 1 })).map(move |variant| Case { ctx, name: name2.clone(), loc: 0, variant }))
+                        // (names of length 3, unquoted: the no-letter-prefix variant as well)
+                        .chain((if nloc > 1 || ctx != 0 { 0..0 } else { 6..VARIANTS.len() }).map({ let n3 = name3.clone(); move |variant| Case { ctx, name: n3.clone(), loc: 0, variant } }))
                 })
             }))
         };
